@@ -40,6 +40,44 @@ def auto_schedules(quick):
                         sch.append([{"op": "Auto", "drop": [held - 1] if held > 1 else [], "dup": [], "slow": [[node, call, slow_ms]], "delay": [[held, delay_ms]]}])
     return sch
 
+def handshake_stage(ck, quick):
+    """C15 on the session-establishment messages: every handshake message of PASE, CASE and CASE resumption lost once or
+    twice (so that it is retransmitted) or answered late; TLC validates that equal counters mean equal bytes."""
+    wd = ck.wd
+    cfg = {"op": "Config", "fabric": True}
+    beh = []
+    for n_lost in (1, 2):
+        for (to_dev, nth) in ((True, 1), (False, 1), (True, 2), (False, 2), (True, 3), (False, 3)):
+            beh.append([cfg, {"op": "Open", "timeout": 900}, {"op": "Pase", "i": 1, "drop_first": [to_dev, nth, n_lost]}, {"op": "Settle"}])
+            if nth <= 2:
+                beh.append([cfg, {"op": "Case", "i": 1, "drop_first": [to_dev, nth, n_lost]}, {"op": "Settle"}])
+                beh.append([cfg, {"op": "Case", "i": 2}, {"op": "Settle"}, {"op": "Case", "i": 2, "drop_first": [to_dev, nth, n_lost]}, {"op": "Settle"}])
+    for (to_dev, nth) in ((True, 1), (False, 1), (True, 2), (False, 2), (True, 3), (False, 3)):
+        for ms in (500, 1200):
+            beh.append([cfg, {"op": "Open", "timeout": 900}, {"op": "Pase", "i": 1, "hold": [to_dev, nth, ms]}, {"op": "Settle"}])
+            if nth <= 2:
+                beh.append([cfg, {"op": "Case", "i": 1, "hold": [to_dev, nth, ms]}, {"op": "Settle"}, {"op": "Case", "i": 1, "hold": [to_dev, nth, ms]}, {"op": "Settle"}])
+    bpath = os.path.join(wd, "hs_behaviours.ndjson")
+    vlib.write_ndjson(bpath, beh)
+    tpath = os.path.join(wd, "hs_trace.ndjson")
+    summ = vlib.harness(["c02", "--behaviours", bpath, "--out", tpath], timeout=3000)
+    states, n_runs, rej = vlib.validate_runs("C15", "HsWireTrace.tla", "HsWireTrace.cfg", tpath)
+    names = {0x20: "PBKDFParamRequest", 0x21: "PBKDFParamResponse", 0x22: "Pake1", 0x23: "Pake2", 0x24: "Pake3", 0x30: "Sigma1", 0x31: "Sigma2", 0x32: "Sigma3", 0x33: "Sigma2Resume", 0x40: "StatusReport"}
+    for r in rej:
+        e = r["event"]
+        ck.violation("C15|handshake-retransmission-differs|%s" % names.get(e.get("opcode"), e.get("opcode")),
+                     "a retransmitted %s (counter %s, node %s) is not identical to its first transmission" % (names.get(e.get("opcode"), e.get("opcode")), e.get("ctr"), e.get("src")),
+                     {"first_rejected": {"index": r["at"], "event": e}, "schedule": beh[r["run_index"]] if r["run_index"] < len(beh) else None, "run": [x for x in r["run"] if x.get("ev") in ("Hs", "Start", "IniEnd")][:80]})
+    ev = vlib.read_ndjson(tpath)
+    hs = [e for e in ev if e.get("ev") == "Hs"]
+    keyed = {}
+    for e in hs:
+        keyed.setdefault((e.get("seq", 0) // 10**9, e["src"], e["dst"], e["ctr"]), 0)
+    n_retx = len(hs) - len({(json.dumps([e["src"], e["dst"], e["ctr"], e["bytes"]])) for e in hs})
+    ck.cov["handshake_wire"] = {"schedules": len(beh), "runs": n_runs, "handshake_datagrams": len(hs), "retransmitted_copies": n_retx, "rejected_runs": len(rej),
+                                "handshakes_completed": sum(1 for e in ev if e.get("ev") == "IniEnd" and e.get("ok")), "handshakes_failed": sum(1 for e in ev if e.get("ev") == "IniEnd" and not e.get("ok")),
+                                "spec": "HsWireTrace.tla", "states": states, "replay": summ}
+
 def run(tier, seed, pid="C09", extra=()):
     ck = Check(pid, tier, seed)
     wd = ck.wd
@@ -99,6 +137,8 @@ def run(tier, seed, pid="C09", extra=()):
     if summ.get("ids"):
         ck.cov["id_allocation"] = summ["ids"]
         ck.cov["id_allocation"]["alloc_events_validated"] = sum(1 for e in ev if e.get("ev") == "Alloc")
+    if pid == "C15":
+        handshake_stage(ck, quick)
     ck.assumptions += ["planted CASE session (zero keys), one exchange, two request/response rounds, network latency 1 ms per delivery, virtual clock",
                        "a dropped datagram's counter is black-holed (all its retransmissions are lost), as in the model"]
     return ck.finish()
